@@ -244,17 +244,17 @@ def _impl(op, a):
     if op == "lt":
         return guarded(lambda: fbool(_P(a[0]) < _P(a[1])))
     if op == "ident":
-        return guarded(lambda: fseq(Perm.identity(int(a[0]))))
+        return guarded(lambda: fseq(getattr(Perm, past.alias("identity", tuple(a)))(int(a[0]))))
     if op == "std":
         def std():
             v = encode(a[0], pseq(a[1]))
-            r = Perm.to_standard(v)
+            r = getattr(Perm, past.alias("to_standard", tuple(a)))(v)
             out = fseq(r)
             if _HEAVY[0] and isinstance(v, list) and v:
                 # the list that was passed in is changed afterwards; a fresh call with the old content must not notice
                 v.append(v[0])
                 v.reverse()
-                r2 = fseq(Perm.to_standard(encode(a[0], pseq(a[1]))))
+                r2 = fseq(getattr(Perm, past.alias("to_standard", (tuple(a), 2)))(encode(a[0], pseq(a[1]))))
                 if r2 != out or fseq(r) != out:
                     return used.unstable(out, r2)
             return out
@@ -276,7 +276,7 @@ def _impl(op, a):
     if op == "onebased":
         def ob():
             v = pints(a[0])
-            r = Perm.one_based(v)
+            r = getattr(Perm, past.alias("one_based", tuple(a)))(v)
             out = fints(r)
             v.clear()                     # argument and result are destroyed: the next call starts from scratch
             used.scrub(r)
@@ -307,7 +307,7 @@ def _impl(op, a):
     if op == "intrt1":
         return guarded(lambda: fseq(Perm.from_integer(int("".join(str(v + 1) for v in pseq(a[0]))))))
     if op == "onert":
-        return guarded(lambda: fints(Perm.one_based(v + 1 for v in pseq(a[0]))))
+        return guarded(lambda: fints(getattr(Perm, past.alias("one_based", tuple(a)))(v + 1 for v in pseq(a[0]))))
     if op == "munrank":
         return guarded(lambda: fmesh(MeshPatt.unrank(_P(a[0]), int(a[1]))))
     if op == "mrank":
